@@ -349,6 +349,44 @@ def serve (cfg : Config) (rq : Req) : Int × Nat :=
   | none => (-1, 0)
   | some (i, rt) => (i, effect cfg rt rq)
 
+/-! ### the source text the tables above transcribe (compared with the regenerated facts) -/
+
+def expectedAuthOrder : List (String × String) := [
+  ("isRequestSignatureV2(r)", "authTypeSignedV2"),
+  ("isRequestPresignedSignatureV2(r)", "authTypePresignedV2"),
+  ("isRequestSignStreamingV4(r)", "authTypeStreamingSigned"),
+  ("isRequestSignatureV4(r)", "authTypeSigned"),
+  ("isRequestPresignedSignatureV4(r)", "authTypePresigned"),
+  ("isRequestJWT(r)", "authTypeJWT"),
+  ("isRequestPostPolicySignatureV4(r)", "authTypePostPolicy"),
+  ("_, ok := r.Header[\"Authorization\"];!ok", "authTypeAnonymous"),
+  ("", "authTypeUnknown")]
+
+def expectedPred : List (String × String) := [
+  ("isRequestJWT", "return strings.HasPrefix(r.Header.Get(\"Authorization\"), \"Bearer\")"),
+  ("isRequestSignatureV4", "return strings.HasPrefix(r.Header.Get(\"Authorization\"), signV4Algorithm)"),
+  ("isRequestSignatureV2", "return !strings.HasPrefix(r.Header.Get(\"Authorization\"), signV4Algorithm) && strings.HasPrefix(r.Header.Get(\"Authorization\"), signV2Algorithm)"),
+  ("isRequestPresignedSignatureV4", "_, ok := r.URL.Query()[\"X-Amz-Credential\"] ; return ok"),
+  ("isRequestPresignedSignatureV2", "_, ok := r.URL.Query()[\"AWSAccessKeyId\"] ; return ok"),
+  ("isRequestPostPolicySignatureV4", "return strings.Contains(r.Header.Get(\"Content-Type\"), \"multipart/form-data\") && r.Method == http.MethodPost"),
+  ("isRequestSignStreamingV4", "return r.Header.Get(\"x-amz-content-sha256\") == streamingContentSHA256 && r.Method == http.MethodPut")]
+
+def expectedTail : String :=
+  "if s3Err != s3err.ErrNone { return identity, s3Err } ; bucket, _ := getBucketAndObject(r) ; if !identity.canDo(action, bucket) { return identity, s3err.ErrAccessDenied } ; return identity, s3err.ErrNone"
+
+def authTypeOfName : String → Option AuthType
+  | "authTypeUnknown" => some .unknown | "authTypeAnonymous" => some .anonymous | "authTypePresigned" => some .presigned
+  | "authTypePresignedV2" => some .presignedV2 | "authTypePostPolicy" => some .postPolicy | "authTypeStreamingSigned" => some .streamingSigned
+  | "authTypeSigned" => some .signed | "authTypeSignedV2" => some .signedV2 | "authTypeJWT" => some .jwt | _ => none
+
+def armName : Arm → String
+  | .pass => "pass" | .denied => "denied" | .notimpl => "notimpl" | .v2 => "v2" | .v4 => "v4" | .anon => "anon"
+
+/-- the verifier functions a handler of each kind calls itself -/
+def expectedVerifiers (h : String) : String :=
+  match kindOf h with
+  | .plain => "-" | .putObject => "seed,v2,v4" | .putPart => "seed,v2,v4" | .postPolicy => "policy" | .listBuckets => "authuser"
+
 /-! ### IAM policy documents: `GetActions` -/
 
 structure Stmt where
